@@ -545,6 +545,14 @@ def rule_precedence(ck):
             return
         raise AnalysisError("_apply_xheaders: default of the X-Real-Ip lookup is not a local name: %s" % q.unparse(g[1]))
     scanv = g[1].id  # the X-Forwarded-For candidate: default of the X-Real-Ip lookup
+    for _hop in range(4):
+        # `ip = found` copies (left by an inlined helper's return value): follow them to the variable the scan binds
+        binds_loop = any(n.kind == "for" and scanv in {x.id for x in ast.walk(n.ast.target) if isinstance(x, ast.Name)} for n in cfg.nodes if n.id in cfg.reachable())
+        copies = [d for d in cfg.stmt_nodes(lambda n: n.kind == "stmt" and isinstance(n.ast, ast.Assign) and scanv in q.assigned_paths(n.ast)) if d is not last and isinstance(d.ast.value, ast.Name) and cfg.dominates(d, last)]
+        others = [d for d in cfg.stmt_nodes(lambda n: n.kind == "stmt" and scanv in q.assigned_paths(n.ast)) if d is not last and d not in copies]
+        if binds_loop or len(copies) != 1 or others:
+            break
+        scanv = copies[0].ast.value.id
     # XFF scan: the loop that binds that candidate
     loops = [n for n in cfg.nodes if n.kind == "for" and n.id in cfg.reachable() and scanv in {x.id for x in ast.walk(n.ast.target) if isinstance(x, ast.Name)}]
     nexts = [d for d in cfg.stmt_nodes(lambda n: n.kind == "stmt" and isinstance(n.ast, ast.Assign) and scanv in q.assigned_paths(n.ast)) if d is not last and q.is_call(d.ast.value, "next") and d.ast.value.args and isinstance(d.ast.value.args[0], ast.GeneratorExp) and cfg.dominates(d, last)]
